@@ -143,17 +143,21 @@ class SyncedList(SyncedCollection, MutableSequence):
                 # inserting at the beginning will require reconverting all
                 # elements of the data.
                 for i in range(min(len(self), len(data))):
-                    if data[i] == self._data[i]:
-                        continue
-                    if (
-                        _sc_resolver.get_type(self._data[i]) == "SYNCEDCOLLECTION"
-                        and data[i] is not None
+                    if _sc_resolver.get_type(self._data[i]) == "SYNCEDCOLLECTION":
+                        # Always merge into nested collections: equality does
+                        # not distinguish 1, 1.0 and True, so it cannot be
+                        # used to skip them.
+                        if data[i] is not None:
+                            try:
+                                self._data[i]._update(data[i])
+                                continue
+                            except ValueError:
+                                pass
+                    elif (
+                        type(data[i]) is type(self._data[i])
+                        and data[i] == self._data[i]
                     ):
-                        try:
-                            self._data[i]._update(data[i])
-                            continue
-                        except ValueError:
-                            pass
+                        continue
                     if not _validate:
                         self._validate(data[i])
                     self._data[i] = self._from_base(data[i], parent=self)
